@@ -368,6 +368,8 @@ def gen_cases(rng, tier, search):
             if not p["legacy"]:
                 uniq_hooks(p)
             cases.append(common.Case(p, None, tags=(p["family"], "legacy" if p["legacy"] else "new")))
+        for p in startdel_cases():
+            cases.append(common.Case(p, None, tags=("startdel", "legacy" if p["legacy"] else "new")))
     for i in range(n):
         family = ["clean", "dup", "svc", "jup"][i % 4]
         if family == "svc":
@@ -526,8 +528,92 @@ def script_text(payload, file="t"):
     return "\n".join(lines) + "\n"
 
 
+# --------------------------------------------------------------------------------------------- removed while it is starting
+# Directed family `startdel` (oracle only, no Lean column; seeded change C09_7): a function with two decorators, the
+# FIRST of which really suspends while it starts (`@service` of a domain Home Assistant has never seen: the start reads
+# the service descriptions), is deleted / rebound by a `@time_trigger("startup")` function of the same file while that
+# start is suspended.  Leave-nothing-behind oracle: no bus listener / state subscription of the removed function, no
+# run of it on a later occurrence, its service gone; after unloading everything the bus is back to its baseline.
+STARTDEL_VARIANTS = [(how, second) for how in ("del", "rebind") for second in ("event", "state")]
+
+
+def startdel_cases():
+    out = []
+    for i, (how, second) in enumerate(STARTDEL_VARIANTS):
+        for legacy in (False, True):
+            out.append({"family": "startdel", "legacy": legacy, "hashseed": HASHSEEDS[i % len(HASHSEEDS)], "ops": [],
+                        "how": how, "second": second, "dom": f"c09nat{i}{'l' if legacy else 'n'}"})
+    return out
+
+
+def startdel_text(payload):
+    trig = '@event_trigger("c09_ev")' if payload["second"] == "event" else '@state_trigger("pyscript.c09v")'
+    kill = "    del handler" if payload["how"] == "del" else "    handler = None"
+    return "\n".join([f'@service("{payload["dom"]}.ping")', trig, "def handler(**kw):", "    rec('run', 'old')", "",
+                      '@time_trigger("startup")', "def killer():", "    global handler", kill, "    pyscript.c09_killed = 1", ""])
+
+
+def _run_startdel(payload):
+    from ha_env import run_ha
+    from custom_components.pyscript.state import State
+
+    def look(env):
+        lis = env.hass.bus.async_listeners()
+        return {"ev": lis.get("c09_ev", 0),
+                "st": sum(len(v) for k, v in State.notify.items() if k.startswith("pyscript.c09v")),
+                "svc": 1 if env.hass.services.has_service(payload["dom"], "ping") else 0,
+                # (a state variable, not rec(): a startup trigger may run before the harness has registered rec)
+                "killed": 1 if env.hass.states.get("pyscript.c09_killed") is not None else 0,
+                "old": len([r for r in env.records if r[1] == "run" and r[2] == "old"])}
+
+    async def body(env):
+        obs = []
+        for _ in range(4):
+            await env.settle(0.5)
+        obs.append(dict(look(env), at="started"))
+        for k in range(2):
+            await env.fire("c09_ev")
+            await env.set_state("pyscript.c09v", str(k + 1))
+            await env.settle(0.2)
+        obs.append(dict(look(env), at="occurrences"))
+        for entry in env.hass.config_entries.async_entries("pyscript"):
+            await env.hass.config_entries.async_unload(entry.entry_id)
+        await env.settle(0.2)
+        await env.fire("c09_ev")
+        await env.settle(0.2)
+        obs.append(dict(look(env), at="unloaded"))
+        return obs
+    try:
+        return run_ha({"t.py": startdel_text(payload)}, bool(payload["legacy"]), body)
+    except Exception as e:  # pragma: no cover
+        return [{"harness_error": type(e).__name__ + ":" + str(e)[:200]}]
+
+
+def startdel_deviations(payload):
+    obs = payload.get("_obs") or []
+    if obs and "harness_error" in obs[0]:
+        return [("harness", obs[0]["harness_error"][:200])]
+    devs = []
+    for o in obs:
+        at = o["at"]
+        if o["killed"] != 1:
+            devs.append(("harness", f"{at}: the startup function did not run"))
+        if o["old"]:
+            devs.append(("ran-inactive", f"{at}: the removed function ran {o['old']} time(s) after it was "
+                         f"{'deleted' if payload['how'] == 'del' else 'rebound'} while its decorators were starting"))
+        if o["ev"]:
+            devs.append(("leak:bus-listener", f"{at}: {o['ev']} bus listener(s) for c09_ev, the only function using it is gone"))
+        if o["st"]:
+            devs.append(("leak:state-subscription", f"{at}: State.notify still has pyscript.c09v ({o['st']})"))
+        if o["svc"]:
+            devs.append(("leak:service", f"{at}: service {payload['dom']}.ping still registered"))
+    return devs
+
+
 # --------------------------------------------------------------------------------------------- running the implementation
 def _run_one(payload):
+    if payload.get("family") == "startdel":
+        return _run_startdel(payload)
     import gc
     import asyncio
     import common  # noqa: F401
@@ -937,6 +1023,10 @@ def finish_case(c):
         c.impl = "harness:" + obs[0]["harness_error"]
         c.line = None
         return
+    if c.payload.get("family") == "startdel":
+        c.impl = " | ".join(f"{o['at']}: ev={o['ev']} st={o['st']} svc={o['svc']} old-runs={o['old']}" for o in obs)
+        c.line = None
+        return
     blocks = []
     for o in obs:
         if o.get("err"):
@@ -1079,6 +1169,8 @@ def oracle(payload):
 
 
 def deviations(payload):
+    if payload.get("family") == "startdel":
+        return startdel_deviations(payload)
     obs = payload.get("_obs") or []
     if obs and "harness_error" in obs[0]:
         return [("harness", obs[0]["harness_error"][:200])]
